@@ -194,7 +194,7 @@ func runC08(pl *plan.Plan, out *plan.Outcome) {
 	})
 	res := env.Run()
 	if res != "done" && out.Trouble == "" {
-		out.Trouble = "run ended: " + res
+		env.runEnded(res, out)
 	}
 	if sess == nil {
 		return
